@@ -15,15 +15,15 @@ CONSTANTS
   Routes = {"msg"}
   Reqs = {1}
   MaxLeases = 1
-  Zones <- ZonesT
-  Parent <- ParentT
-  DTTLs = {1, 7}
+  Zones <- ZonesQ
+  Parent <- ParentQ
+  DTTLs = {0, 1, 3, 7}
   Ceil = 43200
   ProvCap = 60
-  MaxVer = 2
-  MaxPubOps = 1
-  PubInits <- PubInitsT
-  Res = {1}
+  MaxVer = 1
+  MaxPubOps = 0
+  PubInits <- PubInitsQ
+  Res = {1, 2}
 SPECIFICATION SpecDeleg
 VIEW ViewD
 INVARIANTS TypeOKD FollowsParent
